@@ -255,6 +255,29 @@ def r5(rep, w):
                         if all(tok.startswith('as ') or tok in ('0', '*') or tok.startswith('@') or tok.startswith('in ') for tok in q[1:]) \
                                 and not any(tok in ('@deref', '@borrow', '@borrow_mut') for tok in q[1:]):
                             derived.add(l)
+            # a copy of the popped object's *contents* (`a.borrow().elements.clone()`): the elements are reachable only through the
+            # popped object, which nothing roots any more
+            contents = set()
+            for l, paths in org.items():
+                for q in paths:
+                    if q[0] == root_key and q[-1] in ('@clone', '@to_vec', '@cloned') and any(tok in ('@deref', '@borrow') for tok in q[1:]) \
+                            and managed_not_immortal(c, f.local_ty(l)):
+                        derived.add(l)
+                        contents.add(l)
+            # ... and whatever is built from such a value by a function that takes it over (constructors, RefCell::new, ...)
+            grew = True
+            while grew:
+                grew = False
+                for b2, t2 in f.calls():
+                    d2 = (t2.get('dst') or {})
+                    if d2.get('p') or d2.get('l') in derived or callee_name(t2) in mg or callee_name(t2) == POP:
+                        continue
+                    if any('m' in a and op_place(a) is not None and not op_place(a).get('p') and op_place(a)['l'] in derived for a in t2['args']) \
+                            and managed_not_immortal(c, f.local_ty(d2['l'])) and not str(c.tstr(f.local_ty(d2['l']))).startswith(('memory::Root<', 'memory::UniqueRoot<')):
+                        derived.add(d2['l'])
+                        if any(op_place(a) is not None and op_place(a)['l'] in contents for a in t2['args']):
+                            contents.add(d2['l'])
+                        grew = True
             derived = {l for l in derived if managed_not_immortal(c, f.local_ty(l))}
             key = '%s / pop@%s' % (f.path, ordinal(pops, pb))
             if not derived:
@@ -274,7 +297,8 @@ def r5(rep, w):
                 if reads[b2][1] & derived:
                     for i, a in enumerate(t2['args']):
                         pla = op_place(a)
-                        if pla is not None and pla['l'] in derived and param_live_across_gc(w, mg, n2, i):
+                        # (a payload handed to an allocator is adopted only after the allocator has had its chance to collect: G2)
+                        if pla is not None and pla['l'] in derived and (pla['l'] in contents or param_live_across_gc(w, mg, n2, i)):
                             hit = (b2, b2)
                     if hit:
                         break
